@@ -276,16 +276,14 @@ Fixpoint micro_of (fuel : nat) (sched : list nat) (c : config) : list nat :=
 Definition outcomes (c : config) : list (option (list outcome)) := map finished (snd c).
 
 (* ----------------------------------------------------- scenario descriptors *)
-(* Which of the proposed repairs are present in the tree under test (detected from the source
-   by harness/tables/ConcFixes.py).  `no_fixes` is the pinned tree. *)
+(* The model describes the CURRENT tree, i.e. with the repairs F30 (hook scan over a snapshot),
+   F32 (defaults dict published when complete), F33 (v1 catch-all read, not popped) and F34
+   (Env.reload loads environ first) in place.  The one repair still only PROPOSED is F31; the
+   harness detects from the source whether it is present (`no_fixes` = it is not). *)
 Record fixes := mkX {
-  fx30 : bool;   (* hook scan iterates over tuple(hooks) *)
-  fx31 : bool;   (* the JSON-path tables are always (re)written: no `set_paths` guard *)
-  fx32 : bool;   (* FIELD_TO_DEFAULT[cls] is published after it has been filled *)
-  fx33 : bool;   (* v1: the catch-all entry is read, not popped *)
-  fx34 : bool    (* Env.reload() loads `environ` before it touches Env.var_names *)
+  fx31 : bool    (* the JSON-path tables are always (re)written: no `set_paths` guard *)
 }.
-Definition no_fixes : fixes := mkX false false false false false.
+Definition no_fixes : fixes := mkX false.
 
 Record fdesc := mkF { fd_dflt : bool; fd_path : bool }.
 Record cdesc := mkC {
@@ -309,7 +307,8 @@ Inductive vty :=          (* run-time type of a dumped field value *)
 Inductive call :=
 | CLoad (ks : list kspec)
 | CDump (vals : list vty)
-| CEnv (reload : bool).
+| CEnv (reload : bool)
+| CV1Load.                (* first-or-later load of the v1 catch-all class (abstract protocol) *)
 
 Definition VNull : val := VN 999.     (* ExplicitNull *)
 Definition VEmpty : val := VL [].      (* '' : the alias of a field dumped under a JSON path *)
@@ -348,10 +347,10 @@ Definition p_fields (c : prog) : prog :=
     | None => Yield Y_fields_miss (Wr T_FIELDS 0 VU (Rd T_FIELDS 0 (fun r2 => need r2 (fun _ => c))))
     end).
 
-(* dataclass_field_to_default(cls): a NEW inner dict is REGISTERED EMPTY, then filled through the
-   local reference; `return FIELD_TO_DEFAULT[cls]` re-reads the registration, which another thread
-   may have replaced by its own (still empty) dict.  Returns the owner of the dict it hands out. *)
-Definition p_defaults (fx : fixes) (tid : nat) (cd : cdesc) (c : nat -> prog) : prog :=
+(* dataclass_field_to_default(cls): a NEW local dict is filled, then published (F32 repair);
+   `return FIELD_TO_DEFAULT[cls]` re-reads the registration, which may by then be the (equally
+   complete) dict of another thread.  Returns the owner of the dict it hands out. *)
+Definition p_defaults (tid : nat) (cd : cdesc) (c : nat -> prog) : prog :=
   let ret := Rd T_DEFREG 0 (fun r2 => match r2 with
                                       | Some (VN o) => c o
                                       | Some _ => Ret [OErr ETypeError]
@@ -365,10 +364,7 @@ Definition p_defaults (fx : fixes) (tid : nat) (cd : cdesc) (c : nat -> prog) : 
           Yield Y_defaults_registered
             (p_fields (for_fields (cd_fields cd) 0
                (fun i f k => Yield Y_defaults_fill (if fd_dflt f then Wr (T_DEFAULTS tid) i VU k else k)) k)) in
-        Yield Y_defaults_miss
-          (if fx32 fx
-           then fill (Wr T_DEFREG 0 (VN tid) ret)          (* repaired: filled, THEN published *)
-           else Wr T_DEFREG 0 (VN tid) (fill ret))         (* pinned: registered empty, then filled *)
+        Yield Y_defaults_miss (fill (Wr T_DEFREG 0 (VN tid) ret))
     end).
 
 (* get_loader(cls) *)
@@ -474,7 +470,7 @@ Definition gen_load (fx : fixes) (tid : nat) (cd : cdesc) (ks : list kspec) : pr
            Yield Y_load_setattr (p_setattr cd 0 (Yield Y_load_store
              (Wr T_LOADFUNC 0 (VL d) (run_load_fn cd d ks)))) in
          if Nat.eqb num_paths 0 then finish [1]
-         else p_fields (p_defaults fx tid cd (fun _ => ItBegin T_PATH
+         else p_fields (p_defaults tid cd (fun _ => ItBegin T_PATH
                 (it_collect (Datatypes.S (Datatypes.S (List.length (cd_fields cd)))) []
                    (fun snap => finish ((if Nat.eqb num_paths (List.length (cd_fields cd)) then 0 else 1) :: snap))))))))))).
 
@@ -496,26 +492,8 @@ Definition matches (v : vty) (t : key) : bool :=
 
 Definition VDefaultHook : val := VN 996.
 
-(* the hook scan of _asdict_inner: for t in hooks: if isinstance(obj, t): hooks[cls] = hooks[t]; break *)
-Fixpoint hook_scan (fuel : nat) (o : nat) (v : vty) (c : prog) : prog :=
-  match fuel with
-  | 0 => Ret [OErr EModel]
-  | Datatypes.S f => ItNext (fun r =>
-      match r with
-      | IRaise => Ret [OErr ERuntime]
-      | IStop => Yield Y_hook_scan_store (Wr (T_HOOKS o) (tkey_of v) VDefaultHook c)
-      | INext t =>
-          Yield Y_hook_scan_iter
-            (if matches v t
-             then Yield Y_hook_scan_store
-                    (Rd (T_HOOKS o) t (fun h => need h (fun hv => Wr (T_HOOKS o) (tkey_of v) hv c)))
-             else hook_scan f o v c)
-      end)
-  end.
-
-Definition SCAN_FUEL : nat := 64.
-
-(* repaired variant: `for t in tuple(hooks)` walks a private snapshot *)
+(* the hook scan of _asdict_inner: `for t in tuple(hooks): if isinstance(obj, t): hooks[cls] = hooks[t]; break`
+   walks a private snapshot of the keys (F30 repair) *)
 Fixpoint hook_scan_snap (l : list key) (o : nat) (v : vty) (c : prog) : prog :=
   match l with
   | [] => Yield Y_hook_scan_store (Wr (T_HOOKS o) (tkey_of v) VDefaultHook c)
@@ -527,32 +505,28 @@ Fixpoint hook_scan_snap (l : list key) (o : nat) (v : vty) (c : prog) : prog :=
          else hook_scan_snap r o v c)
   end.
 
-Definition p_value (fx : fixes) (o : nat) (v : vty) (c : prog) : prog :=
+Definition p_value (o : nat) (v : vty) (c : prog) : prog :=
   Rd (T_HOOKS o) (tkey_of v) (fun h =>
     match h with
     | Some _ => c
-    | None =>
-        Yield Y_hook_scan_begin
-          (if fx30 fx
-           then Keys (T_HOOKS o) (fun l => hook_scan_snap l o v c)
-           else ItBegin (T_HOOKS o) (hook_scan SCAN_FUEL o v c))
+    | None => Yield Y_hook_scan_begin (Keys (T_HOOKS o) (fun l => hook_scan_snap l o v c))
     end).
 
-Fixpoint dump_values (fx : fixes) (cd : cdesc) (o : nat) (skip : list nat) (i : nat) (vals : list vty) (c : prog) : prog :=
+Fixpoint dump_values (cd : cdesc) (o : nat) (skip : list nat) (i : nat) (vals : list vty) (c : prog) : prog :=
   match vals with
   | [] => c
   | v :: r =>
       if cd_skipdef cd && mem i skip
-      then dump_values fx cd o skip (Datatypes.S i) r c
-      else p_value fx o v (dump_values fx cd o skip (Datatypes.S i) r c)
+      then dump_values cd o skip (Datatypes.S i) r c
+      else p_value o v (dump_values cd o skip (Datatypes.S i) r c)
   end.
 
 (* the generated `cls_asdict`: d = owner of the dumper :: fields compiled with a skip-default test *)
-Definition run_dump_fn (fx : fixes) (cd : cdesc) (d : list nat) (vals : list vty) : prog :=
+Definition run_dump_fn (cd : cdesc) (d : list nat) (vals : list vty) : prog :=
   match d with
   | [] => Ret [OErr ETypeError]
   | o :: skip =>
-      dump_values fx cd o skip 0 vals
+      dump_values cd o skip 0 vals
         (Ret [if cd_skipdef cd && negb (subset (dflt_ids (cd_fields cd) 0) skip) then OWrong else OSeq])
   end.
 
@@ -576,16 +550,16 @@ Fixpoint gen_dump_fields (dd : nat) (fs : list fdesc) (i : nat) (skip : list nat
 
 Definition gen_dump (fx : fixes) (tid : nat) (cd : cdesc) (vals : list vty) : prog :=
   Yield Y_dump_gen (p_dumper tid (fun o =>
-    p_dump_cfg fx cd (Yield Y_dump_cfg_done (p_defaults fx tid cd (fun dd => p_fields
+    p_dump_cfg fx cd (Yield Y_dump_cfg_done (p_defaults tid cd (fun dd => p_fields
       (Rd T_ALIAS K_CATCH_ALL (fun _ => Size T_PATH (fun _ =>
          gen_dump_fields dd (cd_fields cd) 0 [] (fun skip =>
            Yield Y_dump_setattr (p_setattr cd 1 (Yield Y_dump_store
-             (Wr T_DUMPFUNC 0 (VL (o :: skip)) (run_dump_fn fx cd (o :: skip) vals))))))))))))).
+             (Wr T_DUMPFUNC 0 (VL (o :: skip)) (run_dump_fn cd (o :: skip) vals))))))))))))).
 
 Definition call_dump (fx : fixes) (tid : nat) (cd : cdesc) (vals : list vty) : prog :=
   Rd T_DUMPFUNC 0 (fun r =>
     match r with
-    | Some (VL d) => run_dump_fn fx cd d vals
+    | Some (VL d) => run_dump_fn cd d vals
     | Some _ => Ret [OErr ETypeError]
     | None => Yield Y_dump_miss (gen_dump fx tid cd vals)
     end).
@@ -634,8 +608,8 @@ Definition p_load_environ (tid : nat) (force : bool) (c : prog) : prog :=
     else c).
 
 (* Env.reload() *)
-Definition p_reload (fx : fixes) (tid : nat) (c : prog) : prog :=
-  (if fx34 fx then p_load_environ tid false else (fun k : prog => k))
+Definition p_reload (tid : nat) (c : prog) : prog :=
+  p_load_environ tid false          (* F34 repair: `environ` is loaded before var_names is touched *)
   (p_varnames (10 * tid + 1) (fun a =>
     p_load_environ tid true
       (Rd T_OBJ a (fun old =>
@@ -646,20 +620,46 @@ Definition p_reload (fx : fixes) (tid : nat) (c : prog) : prog :=
                      Wr T_OBJ cobj (VN (if Nat.eqb (content old) 1 then content cc else 1)) c))
               else c)))))).
 
-Definition call_env (fx : fixes) (tid : nat) (reload : bool) : prog :=
-  (if reload then p_reload fx tid else p_load_environ tid false)
+Definition call_env (tid : nat) (reload : bool) : prog :=
+  (if reload then p_reload tid else p_load_environ tid false)
     (p_member (10 * tid + 1) (fun c1 =>            (* upper_key in Env.var_names *)
        if Nat.eqb c1 1 then Ret [OSeq]
        else p_member (10 * tid + 1) (fun _ =>      (* field_name in Env.var_names *)
               p_cleaned tid (fun cobj => Rd T_OBJ cobj (fun cc =>   (* try_cleaned *)
                 Ret [if Nat.eqb (content cc) 1 then OSeq else OErr EMissingVars]))))).
 
+(* ------- abstract protocol: first load of a v1 class with a CatchAll field (class key 1) *)
+(* The alias set-up writes the catch-all entry into the shared alias table once (guarded by
+   IS_V1_LOAD_CONFIG_SETUP); every generation READS it (`field_to_aliases.get(CATCH_ALL)`, F33
+   repair - the pinned code popped it).  The generated function is VN 1 when it handles the
+   catch-all field. *)
+Definition K_V1CLS : key := 1.
+Definition call_v1_catchall : prog :=
+  Rd T_LOADFUNC K_V1CLS (fun r =>
+    match r with
+    | Some (VN 1) => Ret [OSeq]
+    | Some _ => Ret [OErr ETypeError]       (* a function generated without the catch-all field *)
+    | None =>
+        Yield Y_load_miss
+          (Rd T_V1FLAG 0 (fun fl =>
+             (fun k : prog => match fl with
+                              | Some _ => k
+                              | None => Wr T_V1ALIAS K_CATCH_ALL VU (Yield Y_v1_cfg_flag (Wr T_V1FLAG 0 VU k))
+                              end)
+             (Yield Y_v1_load_aliases_read
+               (Rd T_V1ALIAS K_CATCH_ALL (fun ca =>
+                  let has := if is_some ca then 1 else 0 in
+                  Yield Y_v1_load_store (Wr T_LOADFUNC K_V1CLS (VN has)
+                    (Ret [if Nat.eqb has 1 then OSeq else OErr ETypeError])))))))
+    end).
+
 (* ---------------------------------------------------------------- threads *)
 Definition call_prog (fx : fixes) (tid : nat) (cd : cdesc) (c : call) : prog :=
   match c with
   | CLoad ks => call_load fx tid cd ks
   | CDump vals => call_dump fx tid cd vals
-  | CEnv reload => call_env fx tid reload
+  | CEnv reload => call_env tid reload
+  | CV1Load => call_v1_catchall
   end.
 
 Fixpoint thread_prog (fx : fixes) (tid : nat) (cd : cdesc) (cs : list call) : prog :=
@@ -676,28 +676,6 @@ Definition initial_store (cd : cdesc) : store :=
 
 Definition scenario (fx : fixes) (cd : cdesc) (ps : list (list call)) : config :=
   (initial_store cd, start (thread_progs fx 0 cd ps)).
-
-(* ------- abstract protocol: v1 `field_to_aliases.pop(CATCH_ALL, None)` on the shared alias table *)
-(* v1 load_func_for_dataclass for a class with a CatchAll field: the set-up writes the catch-all
-   entry into the shared table once (guarded by IS_V1_LOAD_CONFIG_SETUP); every generation POPs it. *)
-Definition call_v1_catchall (fx : fixes) : prog :=
-  Rd T_LOADFUNC 0 (fun r =>
-    match r with
-    | Some (VN 1) => Ret [OSeq]
-    | Some _ => Ret [OErr ETypeError]       (* a function generated without the catch-all field *)
-    | None =>
-        Yield Y_load_miss
-          (Rd T_V1FLAG 0 (fun fl =>
-             (fun k : prog => match fl with
-                              | Some _ => k
-                              | None => Wr T_V1ALIAS K_CATCH_ALL VU (Yield Y_v1_cfg_flag (Wr T_V1FLAG 0 VU k))
-                              end)
-             (Yield Y_v1_load_aliases_read
-               ((if fx33 fx then Rd T_V1ALIAS K_CATCH_ALL else Pop T_V1ALIAS K_CATCH_ALL) (fun ca =>
-                  let has := if is_some ca then 1 else 0 in
-                  Yield Y_v1_load_store (Wr T_LOADFUNC 0 (VN has)
-                    (Ret [if Nat.eqb has 1 then OSeq else OErr ETypeError])))))))
-    end).
 
 (* ---------------------------------------------------------------- printing *)
 Definition show_nat (n : nat) : pstr := list_ascii_of_string (NilZero.string_of_uint (Nat.to_uint n)).
